@@ -1400,8 +1400,10 @@ func (in *Interp) host(s *gen.HostSpec, a []Value) (Value, *ErrVal) {
 		}
 		in.ev("hvs " + Render(a[0]) + " [" + strings.Join(parts, " ") + "]")
 		return int64(len(rest.E)), nil
-	case "hcb":
-		in.ev("hcb")
+	case "hcb", "hcbe", "hcbv":
+		// whatever results the callback type declares: a callback that FAILS is an error of the
+		// enclosing call (an error value it merely returns would be a value)
+		in.ev(s.Name)
 		if _, err := in.invoke(a[0], nil); err != nil {
 			return nil, err
 		}
